@@ -73,6 +73,24 @@ def find_closure(prog, parent_fn, idx_path):
     return fs[0]
 
 
+def find_closures_calling(prog, parent_fn, callee_re):
+    """closure bodies nested (at any depth) in `parent_fn` whose MIR contains a call matching callee_re"""
+    pat = re.compile(callee_re)
+    out = []
+    for raw, fs in prog.fns.items():
+        if not raw.startswith(parent_fn.raw + '::{closure#'):
+            continue
+        for f in fs:
+            hit = False
+            for blk in f.blocks.values():
+                for st, _ in blk:
+                    if st and st[0] == 'call' and isinstance(st[2], str) and pat.search(M.strip_generics(st[2])):
+                        hit = True
+            if hit:
+                out.append(f)
+    return out
+
+
 def executor(crate, models=(), **kw):
     prog, enums = mirdump.program(crate)
     ms = [(re.compile(p) if isinstance(p, str) else p, f) for p, f in models] + MD.GLOBAL_MODELS
